@@ -103,6 +103,45 @@ def run(ctx):
                 ctx.violation('binary aperture applied twice removes more energy: %.9g -> %.9g' % (e1, e2), rec,
                               {'api': 'torch', 'method': meth, 'what': 'aperture_not_idempotent'})
 
+    # ---- histories: the model is a pure function of (field, geometry, aperture), so an aperture-free call must conserve energy whatever
+    #      was called before it with the same geometry (an apertured call, a propagator object that caches kernels)
+    import odak.learn.wave as LWh
+    for (n, m) in [(6, 6), (5, 8)] + ([(8, 8), (7, 9), (12, 10)] if not ctx.quick else []):
+        for meth, name in (('as', 'Angular Spectrum'), ('tf', 'Transfer Function Fresnel'), ('bl', 'Bandlimited Angular Spectrum')):
+            for _try in range(20):
+                dx, lam, z, zc = W.rand_optics(rng)
+                if zc != 'zero' and (meth != 'bl' or W.bl_margin_ok(n, m, dx, lam, z, 'torch')):
+                    break
+            else:
+                continue
+            u = W.rand_field(rng, n, m, 'gauss')
+            A = np.array([[1.0 if rng.random() < 0.5 else 0.0 for _ in range(m)] for _ in range(n)])
+            first = W.impl('torch', meth, u, dx, lam, z)
+            W.impl('torch', meth, u, dx, lam, z, aperture=torch.from_numpy(A))
+            prop = LWh.propagator(resolution=[n, m], wavelengths=[lam], pixel_pitch=dx, number_of_depth_layers=1, volume_depth=0.0,
+                                  image_location_offset=z, propagation_type=name, propagator_type='forward', back_and_forth_distance=0.0,
+                                  aperture_size=2, method='conventional', device=torch.device('cpu'))
+            try:
+                prop(torch.from_numpy(u).to(torch.complex64), 0, 0)
+            except Exception:
+                pass
+            third = W.impl('torch', meth, u, dx, lam, z)
+            e0, e1, e3 = W.energy(u), W.energy(first), W.energy(third)
+            ctx.case(('history', meth, n, m, zc), True)
+            ctx.count('torch/%s/after-apertured-call' % meth)
+            rec = {'api': 'torch', 'method': meth, 'n': n, 'm': m, 'dx': dx, 'lam': lam, 'z': z, 'aperture': A.tolist(),
+                   'history': ['no aperture', 'binary aperture', 'propagator object', 'no aperture'], 'u': [[v.real, v.imag] for v in u.reshape(-1)]}
+            if meth in ('as', 'tf') and not abs(e3 - e0) <= 2e-3 * max(e0, 1e-12):
+                ctx.violation('%s: an aperture-free propagation after an apertured call with the same geometry loses energy: in %.9g out %.9g '
+                              '(first identical call gave %.9g)' % (name, e0, e3, e1), rec, {'api': 'torch', 'method': meth, 'what': 'energy_conservation_history'})
+            elif W.maxdiff(first, third) > 1e-6 * max(1.0, float(np.max(np.abs(first)))):
+                if e3 > e1 * (1 + 2e-3) or e3 < e1 * (1 - 2e-3):
+                    ctx.violation('%s: the same aperture-free call returns a different energy after an apertured call: %.9g then %.9g'
+                                  % (name, e1, e3), rec, {'api': 'torch', 'method': meth, 'what': 'energy_conservation_history'})
+                else:
+                    ctx.alarm('correspondence', '%s is not a function of its arguments: the same call differs by %.3g after an apertured call'
+                              % (name, W.maxdiff(first, third)))
+
     # ---- kernel modulus through get_propagation_kernel
     import odak.learn.wave as LW
     klines, kcases = [], []
@@ -153,6 +192,12 @@ def replay(ctx, rep):
         else W.impl(r['api'], r['method'], u, r['dx'], r['lam'], r['z'])
     e0, e1 = W.energy(u), W.energy(out)
     print('energy in %.12g out %.12g' % (e0, e1))
+    if 'history' in r:
+        W.impl('torch', r['method'], u, r['dx'], r['lam'], r['z'], aperture=ap)
+        out = W.impl('torch', r['method'], u, r['dx'], r['lam'], r['z'])
+        e1 = W.energy(out)
+        print('after an apertured call: energy in %.12g out %.12g' % (e0, e1))
+        return abs(e1 - e0) <= 2e-3 * e0
     if r['method'] in ('as', 'tf') and 'aperture' not in r:
         return abs(e1 - e0) <= 2e-3 * e0
     return e1 <= e0 * (1 + 2e-3)
